@@ -2,7 +2,6 @@ package cache
 
 import (
 	"context"
-	"fmt"
 	"os"
 	"path/filepath"
 	"strings"
@@ -118,16 +117,6 @@ func (c cache) Unpack(
 	}
 }
 
-// filterKey spells a filter as one path segment.
-func filterKey(ff api.FilesetUnpackFilter) string {
-	uf, um, ut := ff.Uid()
-	gf, gm, gt := ff.Gid()
-	mf, mn, mt := ff.MtimeUnix()
-	sf, sr := ff.Setid()
-	df, dr := ff.Dev()
-	return fmt.Sprintf("filtered.u%v.%v.%d.g%v.%v.%d.m%v.%v.%d.s%v.i%v.%v.d%v.%v", uf, um, ut, gf, gm, gt, mf, mn, mt, ff.Sticky(), sf, sr, df, dr)
-}
-
 // checkRejectRules applies the filter's reject rules (setid=reject, dev=reject) to every entry of a shelf.
 func (c cache) checkRejectRules(filt api.FilesetUnpackFilter, shelf fs.RelPath) error {
 	_, rejectSetid := filt.Setid()
@@ -210,14 +199,7 @@ func (c cache) populate(
 	//  This may also require mkdir'ing the prefix dirs of the shelf.
 	//  In case of race: accept our fate, assume the racing party acted in good faith,
 	//  return the shelf path anyway, and our defer'd rm will act on our wasted copy.
-	shelf := ShelfFor(resultWareID)
-	if filt.Altering() && resultWareID == wareID {
-		// The unpacker answered the id of the *unfiltered* ware for a filtered tree: it has no id for one (git), or
-		//  the filter only touched what the tree hash does not cover (devices dropped by dev=ignore).
-		//  Such a tree must never sit on the shelf that lossless requests for that id are served from:
-		//  it gets a shelf of its own, keyed by the filter as well.
-		shelf = ShelfFor(api.WareID{wareID.Type, wareID.Hash + "+" + filterKey(filt)})
-	}
+	shelf := cacheapi.ShelfForResult(wareID, resultWareID, filt)
 	verifhook.Point("cache.populate.unpacked", tmpPathStr, shelf.String())
 	c.fs.Mkdir(shelf.Dir().Dir(), 0755)
 	c.fs.Mkdir(shelf.Dir(), 0755)
